@@ -105,6 +105,23 @@ impl BitBuffer {
         result
     }
 
+    /// Grows the buffer for `bit_len` additional bits and calls `f`; a failed write must not
+    /// leave the buffer grown, so the growth is undone on error.
+    #[inline]
+    fn with_additional_bits<F: FnOnce(&mut Self) -> Result<(), Error>>(
+        &mut self,
+        bit_len: usize,
+        f: F,
+    ) -> Result<(), Error> {
+        let len_before = self.buffer.len();
+        self.ensure_can_write_additional_bits(bit_len);
+        let result = f(self);
+        if result.is_err() {
+            self.buffer.truncate(len_before);
+        }
+        result
+    }
+
     pub fn ensure_can_write_additional_bits(&mut self, bit_len: usize) {
         if self.write_position + bit_len >= self.buffer.len() * BYTE_LEN {
             let required_len = ((self.write_position + bit_len) + 7) / BYTE_LEN;
@@ -188,28 +205,34 @@ impl BitWrite for BitBuffer {
 
     #[inline]
     fn write_bits(&mut self, src: &[u8]) -> Result<(), Error> {
-        self.ensure_can_write_additional_bits(src.len() * BYTE_LEN);
-        BitWrite::write_bits(&mut (&mut self.buffer[..], &mut self.write_position), src)
+        self.with_additional_bits(src.len() * BYTE_LEN, |b| {
+            BitWrite::write_bits(&mut (&mut b.buffer[..], &mut b.write_position), src)
+        })
     }
 
     #[inline]
     fn write_bits_with_offset(&mut self, src: &[u8], src_bit_offset: usize) -> Result<(), Error> {
-        self.ensure_can_write_additional_bits((src.len() * BYTE_LEN).saturating_sub(src_bit_offset));
-        BitWrite::write_bits_with_offset(
-            &mut (&mut self.buffer[..], &mut self.write_position),
-            src,
-            src_bit_offset,
+        self.with_additional_bits(
+            (src.len() * BYTE_LEN).saturating_sub(src_bit_offset),
+            |b| {
+                BitWrite::write_bits_with_offset(
+                    &mut (&mut b.buffer[..], &mut b.write_position),
+                    src,
+                    src_bit_offset,
+                )
+            },
         )
     }
 
     #[inline]
     fn write_bits_with_len(&mut self, src: &[u8], bit_len: usize) -> Result<(), Error> {
-        self.ensure_can_write_additional_bits(bit_len);
-        BitWrite::write_bits_with_len(
-            &mut (&mut self.buffer[..], &mut self.write_position),
-            src,
-            bit_len,
-        )
+        self.with_additional_bits(bit_len, |b| {
+            BitWrite::write_bits_with_len(
+                &mut (&mut b.buffer[..], &mut b.write_position),
+                src,
+                bit_len,
+            )
+        })
     }
 
     #[inline]
@@ -219,13 +242,14 @@ impl BitWrite for BitBuffer {
         src_bit_offset: usize,
         src_bit_len: usize,
     ) -> Result<(), Error> {
-        self.ensure_can_write_additional_bits(src_bit_len);
-        BitWrite::write_bits_with_offset_len(
-            &mut (&mut self.buffer[..], &mut self.write_position),
-            src,
-            src_bit_offset,
-            src_bit_len,
-        )
+        self.with_additional_bits(src_bit_len, |b| {
+            BitWrite::write_bits_with_offset_len(
+                &mut (&mut b.buffer[..], &mut b.write_position),
+                src,
+                src_bit_offset,
+                src_bit_len,
+            )
+        })
     }
 }
 
